@@ -3,6 +3,8 @@ package main
 // C07 - local delivery reaches exactly the registered recipients, once, and nobody else.
 //
 // Generators run histories of register / unregister / fetch / connect / disconnect / deliver
+// (WebSocket clients also: connect without registering, register late, twice, with an unparsable
+// endpoint; deliveries also to dtn:none and to endpoints nobody registered)
 // against a real routing.Core with a real MuxAgent (inside the AgentManager), real RestAgent
 // (driven through its gorilla router with net/http/httptest), real WebSocketAgent (httptest
 // server + real WebSocketAgentConnector clients), real PingAgent (behind a recording proxy) and
@@ -29,6 +31,7 @@ import (
 	"time"
 
 	"github.com/gorilla/mux"
+	"github.com/gorilla/websocket"
 	log "github.com/sirupsen/logrus"
 
 	"github.com/dtn7/dtn7-go/pkg/agent"
@@ -60,11 +63,17 @@ func c07Node(n int) string {
 	return fmt.Sprintf("n%d", n)
 }
 func c07Eid(n, d int) string {
+	if n == 8 {
+		return "dtn:none" // the null endpoint is the pair (8, 0)
+	}
 	dm := []string{"", "a", "b", "c", "d"}[d]
 	return "dtn://" + c07Node(n) + "/" + dm
 }
 
 func c07EidPair(s string) (int, int) {
+	if s == "dtn:none" {
+		return 8, 0
+	}
 	for _, n := range []int{0, 1, 2, 3, 7} {
 		for d := 0; d < 5; d++ {
 			if c07Eid(n, d) == s {
@@ -238,6 +247,138 @@ func (c *c07WsClient) take() []bpv7.Bundle {
 	return r
 }
 
+// ---- raw WebSocket client: dials and speaks the agent's protocol itself, so that it can stay
+// connected without registering, register later, register twice or send an unparsable endpoint.
+// Synchronisation: a WebSocket ping is answered by the server's connection reader with a pong on
+// the same socket, behind every frame the server wrote before. ----
+type c07RawWs struct {
+	conn   *websocket.Conn
+	wmu    sync.Mutex
+	mu     sync.Mutex
+	got    []bpv7.Bundle
+	pongs  int
+	pings  int
+	closed bool
+	status chan string
+	eid    string // "" while not registered
+}
+
+func newC07RawWs(url string) (*c07RawWs, error) {
+	conn, _, err := websocket.DefaultDialer.Dial(url, nil)
+	if err != nil {
+		return nil, err
+	}
+	c := &c07RawWs{conn: conn, status: make(chan string, 16)}
+	conn.SetPongHandler(func(string) error {
+		c.mu.Lock()
+		c.pongs++
+		c.mu.Unlock()
+		return nil
+	})
+	go func() {
+		for {
+			mt, rd, err := conn.NextReader()
+			if err != nil {
+				c.mu.Lock()
+				c.closed = true
+				c.mu.Unlock()
+				close(c.status)
+				return
+			}
+			if mt != websocket.BinaryMessage {
+				continue
+			}
+			v, err := agent.VerifWamUnmarshal(rd)
+			if err != nil {
+				continue
+			}
+			switch v.Code {
+			case 0: // status
+				select {
+				case c.status <- v.Text:
+				default:
+				}
+			case 2: // bundle
+				c.mu.Lock()
+				c.got = append(c.got, v.Bundle)
+				c.mu.Unlock()
+			}
+		}
+	}()
+	return c, nil
+}
+
+func (c *c07RawWs) isClosed() bool {
+	c.mu.Lock()
+	defer c.mu.Unlock()
+	return c.closed
+}
+
+// sync: one ping / pong round trip; false when the connection is gone or the deadline passes.
+func (c *c07RawWs) sync() bool {
+	if c.isClosed() {
+		return false
+	}
+	c.mu.Lock()
+	c.pings++
+	want := c.pings
+	c.mu.Unlock()
+	c.wmu.Lock()
+	err := c.conn.WriteControl(websocket.PingMessage, []byte("verif"), time.Now().Add(c07Deadline()))
+	c.wmu.Unlock()
+	if err != nil {
+		return false
+	}
+	deadline := time.Now().Add(c07Deadline())
+	for {
+		c.mu.Lock()
+		ok, closed := c.pongs >= want, c.closed
+		c.mu.Unlock()
+		if ok {
+			return true
+		}
+		if closed {
+			return false
+		}
+		if time.Now().After(deadline) {
+			c07Expired()
+			return false
+		}
+		time.Sleep(50 * time.Microsecond)
+	}
+}
+
+// register sends a register message and returns the acknowledgement: "" = accepted.
+func (c *c07RawWs) register(eid string) (string, bool) {
+	c.wmu.Lock()
+	wc, err := c.conn.NextWriter(websocket.BinaryMessage)
+	if err == nil {
+		err = agent.VerifWamMarshal(agent.VerifWam{Code: 1, Text: eid}, wc)
+		if err == nil {
+			err = wc.Close()
+		}
+	}
+	c.wmu.Unlock()
+	if err != nil {
+		return "", false
+	}
+	select {
+	case st, ok := <-c.status:
+		return st, ok
+	case <-time.After(c07Deadline()):
+		c07Expired()
+		return "", false
+	}
+}
+
+func (c *c07RawWs) take() []bpv7.Bundle {
+	c.mu.Lock()
+	defer c.mu.Unlock()
+	r := c.got
+	c.got = nil
+	return r
+}
+
 // ---- one agent registered at the Core ----
 type c07Agent struct {
 	label int
@@ -251,11 +392,12 @@ type c07Agent struct {
 	ws    *agent.WebSocketAgent
 	wsSrv *httptest.Server
 	wsCl  map[int]*c07WsClient
+	wsRaw map[int]*c07RawWs
 }
 
 // ---- events ----
 type c07Ev struct {
-	Kind                string // reg rr ru rf wc wd dv
+	Kind                string // reg rr ru rf wc wd wo wg wb dv
 	A, X                int
 	AKind               int
 	Eids                [][2]int
@@ -275,8 +417,10 @@ func (e c07Ev) S() S {
 		return L(Sym("rr"), I(e.A), I(e.X), I(e.N), I(e.D))
 	case "ru", "rf", "wd":
 		return L(Sym(e.Kind), I(e.A), I(e.X))
-	case "wc":
-		return L(Sym("wc"), I(e.A), I(e.X), I(e.N), I(e.D))
+	case "wc", "wg":
+		return L(Sym(e.Kind), I(e.A), I(e.X), I(e.N), I(e.D))
+	case "wo", "wb":
+		return L(Sym(e.Kind), I(e.A), I(e.X))
 	case "dv":
 		return L(Sym("dv"), I(e.Bid), I(e.N), I(e.D), I(e.RN), I(e.RD), I(e.Want))
 	}
@@ -327,6 +471,9 @@ func (e *c07Env) close() {
 		case 3:
 			for _, c := range a.wsCl {
 				c.wac.Close()
+			}
+			for _, c := range a.wsRaw {
+				_ = c.conn.Close()
 			}
 			ch = a.ws.MessageReceiver()
 		}
@@ -413,6 +560,24 @@ func (e *c07Env) wsSync() {
 			}
 		}
 	}
+	// raw clients (registered or not): a ping / pong round trip behind the bundles
+	for _, l := range e.labels {
+		a := e.agents[l]
+		if a.kind != 3 {
+			continue
+		}
+		var cs []int
+		for c := range a.wsRaw {
+			cs = append(cs, c)
+		}
+		sort.Ints(cs)
+		for _, c := range cs {
+			if rc := a.wsRaw[c]; !rc.isClosed() && !rc.sync() && !rc.isClosed() {
+				e.err("ws-pong-timeout")
+				return
+			}
+		}
+	}
 	deadline := time.Now().Add(c07Deadline())
 	for _, c := range cls {
 		for {
@@ -491,6 +656,7 @@ func (e *c07Env) do(ev c07Ev) []S {
 			hm.HandleFunc("/ws", a.ws.ServeHTTP)
 			a.wsSrv = httptest.NewServer(hm)
 			a.wsCl = map[int]*c07WsClient{}
+			a.wsRaw = map[int]*c07RawWs{}
 			e.n.Core.RegisterApplicationAgent(a.ws)
 		}
 		e.agents[ev.A] = a
@@ -538,12 +704,63 @@ func (e *c07Env) do(ev c07Ev) []S {
 		} else {
 			a.wsCl[ev.X] = c
 		}
+	case "wo":
+		a := e.agents[ev.A]
+		url := "ws" + strings.TrimPrefix(a.wsSrv.URL, "http") + "/ws"
+		c, err := newC07RawWs(url)
+		if err != nil {
+			e.err("ws-connect-failed")
+		} else {
+			a.wsRaw[ev.X] = c
+			// the agent reads from the connection only after it has put the client into its multiplexer
+			if !c.sync() {
+				e.err("ws-dial-sync-failed")
+			}
+		}
+	case "wg", "wb":
+		a := e.agents[ev.A]
+		if c, ok := a.wsRaw[ev.X]; ok && !c.isClosed() {
+			eid := "dtn:/~/no endpoint/" // does not parse
+			if ev.Kind == "wg" {
+				eid = c07Eid(ev.N, ev.D)
+			}
+			before := a.ws.VerifClientCount()
+			st, ok := c.register(eid)
+			switch {
+			case !ok:
+				e.err("ws-no-acknowledgement")
+			case st == "":
+				obs = append(obs, L(Sym("ack"), Sym("ok")))
+				c.eid = eid
+			default:
+				// a refused registration ends the connection: wait until the client has left the multiplexer
+				obs = append(obs, L(Sym("ack"), Sym("err")))
+				deadline := time.Now().Add(c07Deadline())
+				for a.ws.VerifClientCount() >= before {
+					if time.Now().After(deadline) {
+						c07Expired()
+						e.err("ws-refused-client-stays")
+						break
+					}
+					time.Sleep(50 * time.Microsecond)
+				}
+			}
+		} else {
+			e.err("ws-raw-client-missing")
+		}
 	case "wd":
 		a := e.agents[ev.A]
+		before := a.ws.VerifClientCount()
+		closedOne := false
 		if c, ok := a.wsCl[ev.X]; ok {
-			before := a.ws.VerifClientCount()
 			c.wac.Close()
 			delete(a.wsCl, ev.X)
+			closedOne = true
+		} else if c, ok := a.wsRaw[ev.X]; ok && !c.isClosed() {
+			_ = c.conn.Close()
+			closedOne = true
+		}
+		if closedOne {
 			deadline := time.Now().Add(c07Deadline())
 			for a.ws.VerifClientCount() >= before {
 				if time.Now().After(deadline) {
@@ -637,9 +854,18 @@ func (e *c07Env) collect() []S {
 			for c := range a.wsCl {
 				cs = append(cs, c)
 			}
+			for c := range a.wsRaw {
+				cs = append(cs, c)
+			}
 			sort.Ints(cs)
 			for _, c := range cs {
-				for _, b := range a.wsCl[c].take() {
+				var got []bpv7.Bundle
+				if wc, ok := a.wsCl[c]; ok {
+					got = wc.take()
+				} else {
+					got = a.wsRaw[c].take()
+				}
+				for _, b := range got {
 					obs = append(obs, L(Sym("h"), I(3), I(l), I(c), I(e.bidOf(b))))
 				}
 			}
@@ -729,15 +955,33 @@ type c07Gen struct {
 	used    [][2]int // endpoints somebody registered for
 	bids    []c07Ev  // deliver events so far (for re-delivery)
 	ws      bool
+	raws    map[int][]int // per WS agent: raw client labels still connected
+	rawReg  map[int]bool  // raw client label -> has registered an endpoint
 }
 
 func newC07Gen(r *Rng, ws bool) *c07Gen {
-	return &c07Gen{r: r, uuids: map[int][]int{}, clients: map[int][]int{}, ws: ws,
+	return &c07Gen{r: r, uuids: map[int][]int{}, clients: map[int][]int{}, ws: ws, raws: map[int][]int{}, rawReg: map[int]bool{},
 		pool: [][2]int{{0, 1}, {0, 2}, {0, 3}, {7, 1}, {7, 2}, {7, 3}}}
 }
 func (g *c07Gen) eid() [2]int {
 	p := g.pool[g.r.Intn(len(g.pool))]
 	return p
+}
+// eidN: an endpoint to register for; now and then the null endpoint.
+func (g *c07Gen) eidN() [2]int {
+	if g.r.Intn(10) == 0 {
+		return [2]int{8, 0}
+	}
+	return g.eid()
+}
+func (g *c07Gen) dropRaw(a, c int) {
+	rs := g.raws[a]
+	for i, x := range rs {
+		if x == c {
+			g.raws[a] = append(append([]int(nil), rs[:i]...), rs[i+1:]...)
+			return
+		}
+	}
 }
 func (g *c07Gen) regAgent(kind int) {
 	ev := c07Ev{Kind: "reg", A: g.nextA, AKind: kind}
@@ -745,7 +989,7 @@ func (g *c07Gen) regAgent(kind int) {
 	case 0:
 		k := 1 + g.r.Intn(3)
 		for i := 0; i < k; i++ {
-			p := g.eid()
+			p := g.eidN()
 			ev.Eids = append(ev.Eids, p)
 			g.used = append(g.used, p)
 		}
@@ -768,7 +1012,9 @@ func (g *c07Gen) deliver() {
 		return
 	}
 	var p [2]int
-	if len(g.used) > 0 && g.r.Intn(5) != 0 {
+	if g.r.Intn(7) == 0 {
+		p = [2]int{8, 0} // dtn:none
+	} else if len(g.used) > 0 && g.r.Intn(5) != 0 {
 		p = g.used[g.r.Intn(len(g.used))]
 	} else {
 		p = g.eid()
@@ -777,11 +1023,13 @@ func (g *c07Gen) deliver() {
 	if g.r.Intn(2) == 0 {
 		ev.Want = 1
 	}
-	switch g.r.Intn(6) {
+	switch g.r.Intn(7) {
 	case 0:
 		ev.RN, ev.RD = 0, 1 // report-to is an endpoint of this node
 	case 1:
 		ev.RN, ev.RD = 7, 1 // report-to may be registered by an agent
+	case 2:
+		ev.RN, ev.RD = 8, 0 // report-to is dtn:none
 	}
 	g.nextB++
 	g.bids = append(g.bids, ev)
@@ -789,13 +1037,13 @@ func (g *c07Gen) deliver() {
 }
 func (g *c07Gen) op() {
 	for {
-		switch g.r.Intn(12) {
+		switch g.r.Intn(16) {
 		case 0, 1:
 			if len(g.rests) == 0 {
 				continue
 			}
 			a := g.rests[g.r.Intn(len(g.rests))]
-			p := g.eid()
+			p := g.eidN()
 			if len(g.used) > 0 && g.r.Intn(3) == 0 {
 				p = g.used[g.r.Intn(len(g.used))]
 			}
@@ -828,7 +1076,7 @@ func (g *c07Gen) op() {
 				continue
 			}
 			a := g.wss[g.r.Intn(len(g.wss))]
-			p := g.eid()
+			p := g.eidN()
 			if len(g.used) > 0 && g.r.Intn(3) == 0 {
 				p = g.used[g.r.Intn(len(g.used))]
 			}
@@ -847,6 +1095,7 @@ func (g *c07Gen) op() {
 			}
 			i := g.r.Intn(len(cs))
 			g.evs = append(g.evs, c07Ev{Kind: "wd", A: a, X: cs[i]})
+			g.dropRaw(a, cs[i])
 			g.clients[a] = append(append([]int(nil), cs[:i]...), cs[i+1:]...)
 		case 7:
 			if g.nextA >= 8 {
@@ -857,6 +1106,44 @@ func (g *c07Gen) op() {
 				k = 2
 			}
 			g.regAgent(k)
+		case 12, 13:
+			// a WebSocket client connects and does not register
+			if len(g.wss) == 0 {
+				continue
+			}
+			a := g.wss[g.r.Intn(len(g.wss))]
+			g.evs = append(g.evs, c07Ev{Kind: "wo", A: a, X: g.nextC})
+			g.clients[a] = append(g.clients[a], g.nextC)
+			g.raws[a] = append(g.raws[a], g.nextC)
+			g.nextC++
+		case 14, 15:
+			// a connected raw client sends a register message: a first one (accepted), a second one
+			// or an unparsable endpoint (both refused, the agent drops the client)
+			if len(g.wss) == 0 {
+				continue
+			}
+			a := g.wss[g.r.Intn(len(g.wss))]
+			rs := g.raws[a]
+			if len(rs) == 0 {
+				continue
+			}
+			c := rs[g.r.Intn(len(rs))]
+			if g.r.Intn(5) == 0 {
+				g.evs = append(g.evs, c07Ev{Kind: "wb", A: a, X: c})
+				g.dropRaw(a, c)
+				break
+			}
+			p := g.eidN()
+			if len(g.used) > 0 && g.r.Intn(3) == 0 {
+				p = g.used[g.r.Intn(len(g.used))]
+			}
+			g.evs = append(g.evs, c07Ev{Kind: "wg", A: a, X: c, N: p[0], D: p[1]})
+			if g.rawReg[c] {
+				g.dropRaw(a, c)
+			} else {
+				g.rawReg[c] = true
+				g.used = append(g.used, p)
+			}
 		default:
 			g.deliver()
 		}
@@ -949,6 +1236,73 @@ func c07Config(kinds []int, same bool, foreign bool, restFirst bool) []c07Ev {
 	return g.evs
 }
 
+// c07ConfigUnreg: nU WebSocket clients that are connected but have not registered (and a REST agent
+// whose only client, if any, is registered for another endpoint), optionally one registered
+// recipient of kind `kind` (-1: none) for E1; deliveries to dtn:none, to E1 and to an endpoint
+// nobody registered, with and without report request (report-to a peer / dtn:none); then the
+// first raw client registers (late), the second one sends an unparsable endpoint, the first one
+// registers a second time (refused: the agent drops it) - with deliveries after every change.
+func c07ConfigUnreg(nU, kind int, foreign, restClient bool) []c07Ev {
+	g := newC07Gen(NewRng(1), true)
+	node := 0
+	if foreign {
+		node = 7
+	}
+	none := [2]int{8, 0}
+	e1, e2, e3 := [2]int{node, 1}, [2]int{node, 2}, [2]int{node, 3}
+	dv := func(p [2]int, want int, rpt [2]int) {
+		g.evs = append(g.evs, c07Ev{Kind: "dv", Bid: g.nextB, N: p[0], D: p[1], RN: rpt[0], RD: rpt[1], Want: want})
+		g.nextB++
+	}
+	peer := [2]int{1, 0}
+	wsA := g.nextA
+	g.regAgent(3)
+	rest := g.nextA
+	g.regAgent(2)
+	if restClient {
+		g.evs = append(g.evs, c07Ev{Kind: "rr", A: rest, X: g.nextU, N: e2[0], D: e2[1]})
+		g.uuids[rest] = append(g.uuids[rest], g.nextU)
+		g.nextU++
+	}
+	var raw []int
+	for i := 0; i < nU; i++ {
+		g.evs = append(g.evs, c07Ev{Kind: "wo", A: wsA, X: g.nextC})
+		raw = append(raw, g.nextC)
+		g.nextC++
+	}
+	switch kind {
+	case 0, 1:
+		g.evs = append(g.evs, c07Ev{Kind: "reg", A: g.nextA, AKind: kind, Eids: [][2]int{e1}})
+		g.nextA++
+	case 2:
+		g.evs = append(g.evs, c07Ev{Kind: "rr", A: rest, X: g.nextU, N: e1[0], D: e1[1]})
+		g.uuids[rest] = append(g.uuids[rest], g.nextU)
+		g.nextU++
+	case 3:
+		g.evs = append(g.evs, c07Ev{Kind: "wc", A: wsA, X: g.nextC, N: e1[0], D: e1[1]})
+		g.nextC++
+	}
+	dv(none, 1, peer)
+	dv(none, 0, peer)
+	dv(e1, 1, peer)
+	dv(e3, 1, peer)
+	dv(none, 1, none)
+	g.evs = append(g.evs, c07Ev{Kind: "wg", A: wsA, X: raw[0], N: e1[0], D: e1[1]})
+	dv(e1, 1, peer)
+	dv(none, 1, peer)
+	if nU > 1 {
+		g.evs = append(g.evs, c07Ev{Kind: "wb", A: wsA, X: raw[1]})
+		dv(none, 1, peer)
+		dv(e1, 0, peer)
+	}
+	g.evs = append(g.evs, c07Ev{Kind: "wg", A: wsA, X: raw[0], N: e2[0], D: e2[1]})
+	dv(e1, 1, peer)
+	dv(e2, 1, peer)
+	dv(none, 1, peer)
+	g.final()
+	return g.evs
+}
+
 func c07Seqs(alphabet, maxLen int) [][]int {
 	out := [][]int{{}}
 	cur := [][]int{{}}
@@ -987,8 +1341,19 @@ func genC07agents(o *Out, r *Rng, thorough bool) {
 			c07RunHistory(o, "config", c07Config(s, v&1 == 0, v&2 != 0, i%2 == 0))
 		}
 	}
+	// (1b) connected but unregistered WebSocket clients, REST agent without a matching client
+	for nU := 1; nU <= 2; nU++ {
+		for kind := -1; kind <= 3; kind++ {
+			for v := 0; v < 4; v++ {
+				if !thorough && v != (nU+kind+int(r.s%4)+4)%4 {
+					continue // quick: one of the four {node-local, foreign} x {REST client or not} variants
+				}
+				c07RunHistory(o, "unreg", c07ConfigUnreg(nU, kind, v&1 != 0, v&2 != 0))
+			}
+		}
+	}
 	// (2) random histories
-	n, nws := 100, 20
+	n, nws := 100, 30
 	if thorough {
 		n, nws = 1500, 300
 	}
